@@ -206,6 +206,11 @@ pub fn run_history(history: usize, n: usize, mode: usize, stride: usize, seed: u
 
     let mut ops_since_probe = 0usize;
     let mut last_pos = 0usize;
+    // operation log on the main treap (0 = insert(pos, key), 1 = remove(pos) -> key, 2 = rotate(k)),
+    // replayed on a plain vector afterwards when the history is small enough: the functional
+    // cross-check is then exact for every history, not only for those with a closed form
+    let mut oplog: Vec<(u8, u32, u32)> = Vec::new();
+    let log_ops = n <= 30_000;
     macro_rules! checkpoint {
         ($tree:expr, $force:expr) => {{
             let size = $tree.size();
@@ -252,7 +257,7 @@ pub fn run_history(history: usize, n: usize, mode: usize, stride: usize, seed: u
         0 => {
             for i in 0..n {
                 let len = t.size();
-                { last_pos = len; ins(&mut t, last_pos, i as u32, &mut f); }
+                { last_pos = len; if log_ops { oplog.push((0, last_pos as u32, i as u32)); } ins(&mut t, last_pos, i as u32, &mut f); }
                 inserted += 1;
                 checkpoint!(t, false);
                 if violation.is_some() {
@@ -262,7 +267,7 @@ pub fn run_history(history: usize, n: usize, mode: usize, stride: usize, seed: u
         }
         1 => {
             for i in 0..n {
-                { last_pos = 0; ins(&mut t, last_pos, i as u32, &mut f); }
+                { last_pos = 0; if log_ops { oplog.push((0, last_pos as u32, i as u32)); } ins(&mut t, last_pos, i as u32, &mut f); }
                 inserted += 1;
                 checkpoint!(t, false);
                 if violation.is_some() {
@@ -273,7 +278,7 @@ pub fn run_history(history: usize, n: usize, mode: usize, stride: usize, seed: u
         2 => {
             for i in 0..n {
                 let len = t.size();
-                { last_pos = len / 2; ins(&mut t, last_pos, i as u32, &mut f); }
+                { last_pos = len / 2; if log_ops { oplog.push((0, last_pos as u32, i as u32)); } ins(&mut t, last_pos, i as u32, &mut f); }
                 inserted += 1;
                 checkpoint!(t, false);
                 if violation.is_some() {
@@ -284,10 +289,13 @@ pub fn run_history(history: usize, n: usize, mode: usize, stride: usize, seed: u
         3 => {
             for i in 0..n {
                 let len = t.size();
-                { last_pos = len; ins(&mut t, last_pos, i as u32, &mut f); }
+                { last_pos = len; if log_ops { oplog.push((0, last_pos as u32, i as u32)); } ins(&mut t, last_pos, i as u32, &mut f); }
                 inserted += 1;
                 if i % 7 == 6 {
                     let k = rng.usize_below(t.size() + 1);
+                    if log_ops {
+                        oplog.push((2, k as u32, 0));
+                    }
                     let (l, r) = std::mem::replace(&mut t, Treap::new()).split_at(k);
                     t = Treap::merge(r, l);
                 }
@@ -300,7 +308,7 @@ pub fn run_history(history: usize, n: usize, mode: usize, stride: usize, seed: u
         4 => {
             for i in 0..n {
                 let len = t.size();
-                { last_pos = len; ins(&mut t, last_pos, i as u32, &mut f); }
+                { last_pos = len; if log_ops { oplog.push((0, last_pos as u32, i as u32)); } ins(&mut t, last_pos, i as u32, &mut f); }
                 inserted += 1;
                 checkpoint!(t, false);
                 if violation.is_some() {
@@ -313,14 +321,16 @@ pub fn run_history(history: usize, n: usize, mode: usize, stride: usize, seed: u
             while pos >= 2 && violation.is_none() {
                 pos -= 2;
                 let removed = t.remove_at(pos);
-                std::hint::black_box(removed.key);
+                if log_ops {
+                    oplog.push((1, pos as u32, removed.key));
+                }
                 inserted -= 1;
             }
             checkpoint!(t, true);
             let refill = if violation.is_some() { 0 } else { n / 2 };
             for i in 0..refill {
                 let len = t.size();
-                { last_pos = if i % 2 == 0 { len } else { 0 }; ins(&mut t, last_pos, (n + i) as u32, &mut f); }
+                { last_pos = if i % 2 == 0 { len } else { 0 }; if log_ops { oplog.push((0, last_pos as u32, (n + i) as u32)); } ins(&mut t, last_pos, (n + i) as u32, &mut f); }
                 inserted += 1;
                 checkpoint!(t, false);
                 if violation.is_some() {
@@ -358,7 +368,7 @@ pub fn run_history(history: usize, n: usize, mode: usize, stride: usize, seed: u
         8 => {
             for i in 0..n / 2 {
                 let len = t.size();
-                { last_pos = len; ins(&mut t, last_pos, i as u32, &mut f); }
+                { last_pos = len; if log_ops { oplog.push((0, last_pos as u32, i as u32)); } ins(&mut t, last_pos, i as u32, &mut f); }
                 let len2 = other.size();
                 { last_pos = len2; ins(&mut other, last_pos, (n / 2 + i) as u32, &mut f); }
                 inserted += 2;
@@ -473,7 +483,7 @@ pub fn run_history(history: usize, n: usize, mode: usize, stride: usize, seed: u
                     1 => t.size(),
                     _ => rng.usize_below(t.size() + 1),
                 };
-                { last_pos = k; ins(&mut t, last_pos, (m + i) as u32, &mut f); }
+                { last_pos = k; if log_ops { oplog.push((0, last_pos as u32, (m + i) as u32)); } ins(&mut t, last_pos, (m + i) as u32, &mut f); }
                 inserted += 1;
                 checkpoint!(t, false);
             }
@@ -482,11 +492,13 @@ pub fn run_history(history: usize, n: usize, mode: usize, stride: usize, seed: u
             // sliding window: push back, and once the window is full pop the front
             let w = (n / 4).max(8);
             for i in 0..n {
-                { last_pos = t.size(); ins(&mut t, last_pos, i as u32, &mut f); }
+                { last_pos = t.size(); if log_ops { oplog.push((0, last_pos as u32, i as u32)); } ins(&mut t, last_pos, i as u32, &mut f); }
                 inserted += 1;
                 if t.size() > w {
                     let removed = t.remove_at(0);
-                    std::hint::black_box(removed.key);
+                    if log_ops {
+                        oplog.push((1, 0, removed.key));
+                    }
                     inserted -= 1;
                 }
                 checkpoint!(t, false);
@@ -499,7 +511,7 @@ pub fn run_history(history: usize, n: usize, mode: usize, stride: usize, seed: u
             let m = (n / 2).max(8);
             for i in 0..m {
                 let k = rng.usize_below(t.size() + 1);
-                { last_pos = k; ins(&mut t, last_pos, i as u32, &mut f); }
+                { last_pos = k; if log_ops { oplog.push((0, last_pos as u32, i as u32)); } ins(&mut t, last_pos, i as u32, &mut f); }
                 inserted += 1;
                 checkpoint!(t, false);
                 if violation.is_some() {
@@ -512,9 +524,11 @@ pub fn run_history(history: usize, n: usize, mode: usize, stride: usize, seed: u
                 }
                 let k = rng.usize_below(t.size());
                 let removed = t.remove_at(k);
-                std::hint::black_box(removed.key);
+                if log_ops {
+                    oplog.push((1, k as u32, removed.key));
+                }
                 let k2 = rng.usize_below(t.size() + 1);
-                { last_pos = k2; ins(&mut t, last_pos, (m + i) as u32, &mut f); }
+                { last_pos = k2; if log_ops { oplog.push((0, last_pos as u32, (m + i) as u32)); } ins(&mut t, last_pos, (m + i) as u32, &mut f); }
                 checkpoint!(t, false);
             }
         }
@@ -525,25 +539,30 @@ pub fn run_history(history: usize, n: usize, mode: usize, stride: usize, seed: u
                     0 if len > 2 => {
                         let k = rng.usize_below(len);
                         let removed = t.remove_at(k);
-                        std::hint::black_box(removed.key);
+                        if log_ops {
+                            oplog.push((1, k as u32, removed.key));
+                        }
                         inserted -= 1;
                     }
                     1 => {
                         let k = rng.usize_below(len + 1);
+                        if log_ops {
+                            oplog.push((2, k as u32, 0));
+                        }
                         let (l, r) = std::mem::replace(&mut t, Treap::new()).split_at(k);
                         t = Treap::merge(r, l);
                     }
                     2 | 3 => {
-                        { last_pos = len; ins(&mut t, last_pos, i as u32, &mut f); }
+                        { last_pos = len; if log_ops { oplog.push((0, last_pos as u32, i as u32)); } ins(&mut t, last_pos, i as u32, &mut f); }
                         inserted += 1;
                     }
                     4 => {
-                        { last_pos = 0; ins(&mut t, last_pos, i as u32, &mut f); }
+                        { last_pos = 0; if log_ops { oplog.push((0, last_pos as u32, i as u32)); } ins(&mut t, last_pos, i as u32, &mut f); }
                         inserted += 1;
                     }
                     _ => {
                         let k = rng.usize_below(len + 1);
-                        { last_pos = k; ins(&mut t, last_pos, i as u32, &mut f); }
+                        { last_pos = k; if log_ops { oplog.push((0, last_pos as u32, i as u32)); } ins(&mut t, last_pos, i as u32, &mut f); }
                         inserted += 1;
                     }
                 }
@@ -566,7 +585,35 @@ pub fn run_history(history: usize, n: usize, mode: usize, stride: usize, seed: u
         }
         let _ = key_sum;
         functional_ok = key_count == inserted && t.size() == inserted;
+        // exact replay of the logged operations on a vector (histories made of insert_at /
+        // remove_at / rotations on the main treap only)
+        if log_ops && matches!(history, 0 | 1 | 2 | 3 | 4 | 9 | 12 | 13) {
+            let mut model: Vec<u32> = Vec::new();
+            let mut removed_ok = true;
+            for (kind, a, b) in &oplog {
+                match kind {
+                    0 => model.insert((*a as usize).min(model.len()), *b),
+                    1 => {
+                        if (*a as usize) < model.len() {
+                            removed_ok &= model.remove(*a as usize) == *b;
+                        } else {
+                            removed_ok = false;
+                        }
+                    }
+                    _ => {
+                        let k = (*a as usize).min(model.len());
+                        model.rotate_left(k);
+                    }
+                }
+            }
+            functional_ok &= removed_ok && model == keys;
+        }
         let exact: Option<Vec<u32>> = match history {
+            // middle insertion has a closed form too: odd keys ascending, then even keys descending
+            2 => {
+                let m = keys.len() as u32;
+                Some((0..m).filter(|k| k % 2 == 1).chain((0..m).rev().filter(|k| k % 2 == 0)).collect())
+            }
             0 | 5 | 6 | 7 | 8 | 10 | 11 | 14 => Some((0..keys.len() as u32).collect()),
             1 => Some((0..keys.len() as u32).rev().collect()),
             _ => None,
